@@ -35,7 +35,7 @@ def _cfg(tier):
     return Cfg(nvars=(1, 3), pool=(2, 5), dom=(1, 3), max_product=27, profile="falsy", max_depth=2,
                allow_empty_cond=False, select="any", desc=("entity", "set_of"), value_terms_in_select=True,
                force_relate=False, noise=False, dom_kinds=("list",), use_k=False,
-               exclude_leaves=frozenset({"substr", "starts"}),
+               exclude_leaves=frozenset({"substr", "starts", "tval"}),
                allow_nested_not="not_under_not" not in open_features())
 
 
